@@ -16,6 +16,11 @@ let state_str s =
   Stdlib.String.concat " " (Stdlib.List.map mode_str (cur s)) ^ " | " ^ Stdlib.String.concat " | " (Stdlib.List.map q_str (dq s))
 let canon l = Stdlib.String.concat " " (split l)
 let tnum x = int_of_string (Stdlib.String.sub x 1 (Stdlib.String.length x - 1))
+(* victim selection: lines "v <n> <rank> <r> <victim>" are answered with the model's victim *)
+let victim_line n rank r =
+  match VictimModel.victim (ni n) (ni rank) (ni r) with
+  | Some v -> Printf.printf "v %d %d %d %d\n" n rank r (ino v)
+  | None -> Printf.printf "v %d %d %d -1\n" n rank r
 let () =
   let st = ref (minit (ni 0) (ni 0)) and ln = ref 0 and nm = ref 0 and ns = ref 0 and failed = ref None in
   let fail msg = if !failed = None then failed := Some (Printf.sprintf "FAIL %d %s" !ln msg) in
@@ -26,6 +31,7 @@ let () =
     let l = input_line stdin in
     incr ln;
     (match split l with
+     | ["v"; n; rank; r; _] -> victim_line (int_of_string n) (int_of_string rank) (int_of_string r)
      | ["begin"; nw; nt] -> st := minit (ni (int_of_string nw)) (ni (int_of_string nt)); ln := 0; nm := 0; ns := 0; failed := None
      | ["end"] -> (match !failed with Some m -> print_endline m | None -> Printf.printf "ok %d %d\n" !nm !ns)
      | _ when !failed <> None -> ()
